@@ -141,6 +141,9 @@ class DirectMethod:
             value = DM(opti.debug.value(self.eval_top(stage, expr), opti_initial)) # HOT line
             opti.set_initial(target, value, cache_advanced=True)
 
+    def set_initial_time_grid(self, stage, master):
+        return False
+
     def set_parameter(self, stage, opti):
         for i, p in enumerate(stage.parameters['']):
             opti.set_value(self.P[i], stage._param_value(p))
